@@ -277,11 +277,11 @@ def check(ctx):
     import importlib
     C04 = importlib.import_module("props.C04")
     sub = util.fresh_ctx(ctx, "C04")
-    C04.check(sub)
+    util.guarded(ctx, C04.check, sub)
     n7 = 0
     for o in sub.obs:
         if o["rule"] in ("R04.3", "R04.5", "R04.6") and "mmap_log" in o["key"]:
             n7 += 1
             ctx.ob("R09.7", o["key"], o["ok"], o["site"], o["detail"], o["nontrivial"])
-    ctx.floor("R09.7", 6)
+    if not getattr(ctx, "deferred_infra", None): ctx.floor("R09.7", 6)
     ctx.floor("R09.1", 6); ctx.floor("R09.2", 5); ctx.floor("R09.3", 8); ctx.floor("R09.4", 2); ctx.floor("R09.6", 3)
